@@ -50,11 +50,50 @@ def gfortran_error_class(err):
 def run_original(case, rendered=None, driver=None, flags=None):
     rendered = rendered or render_case(case)
     driver = driver or make_driver(case)
-    res = native().build_run('orig', [(r['name'], r['text']) for r in rendered], driver, flags=flags)
+    files = [(r['name'], r['text']) for r in rendered]
+    res = native().build_run('orig', files, driver, flags=flags)
+    res.source = (files, driver, flags)
     if res.stage.startswith('compile'):
         raise GeneratorBug('original program does not compile:\n' + res.err[-1500:] + '\n---\n' +
                            '\n'.join(r['text'] for r in rendered))
     return res
+
+
+INIT_VARIANTS = (['-finit-integer=12345', '-finit-real=snan', '-finit-logical=true'],
+                 ['-finit-integer=-999', '-finit-real=inf', '-finit-logical=false'])
+
+
+def original_reads_undefined(orig):
+    """
+    True when the output of the ORIGINAL generated program depends on the value that uninitialised
+    local variables happen to have: exactly the sources, driver and flags that produced ``orig``
+    (recorded by run_original) are rebuilt with two different gfortran -finit-* settings and must
+    print exactly what the program printed without them. A program that fails this references an
+    undefined variable (not standard-conforming, outcome arbitrary and possibly different from
+    run to run), i.e. it is a generator defect and lies outside every behaviour-preservation
+    property. Only consulted after a candidate disagreed with the original, so it costs nothing
+    on passing cases. Results that were not produced by run_original are never excused.
+    """
+    from .native import FFLAGS
+    src = getattr(orig, 'source', None)
+    if src is None:
+        return False
+    files, driver, flags = src
+    base = list(FFLAGS if flags is None else flags)
+    for extra in INIT_VARIANTS:
+        res = native().build_run('origchk', files, driver, flags=base + extra)
+        if res.stage.startswith('compile'):
+            return False
+        if res.ok != orig.ok or res.out != orig.out:
+            return True
+    return False
+
+
+def _undefined_guard(ctx, orig):
+    if original_reads_undefined(orig):
+        ctx.exclude('original-reads-undefined-variable(UB; generator defect, case discarded)')
+        return True
+    return False
 
 
 def differential(ctx, case, candidate_files, prefix, original=None, driver=None, rtol=0.0, flags=None,
@@ -74,9 +113,13 @@ def differential(ctx, case, candidate_files, prefix, original=None, driver=None,
         ctx.fail(f'{prefix}:candidate-does-not-compile:{gfortran_error_class(cand.err)}', case, cand.err[-1200:])
         return 'fail'
     if not cand.ok:
+        if _undefined_guard(ctx, orig):
+            return 'ub'
         ctx.fail(f'{prefix}:candidate-runtime-error', case, cand.brief())
         return 'fail'
     if not same_output(orig.out, cand.out, rtol):
+        if _undefined_guard(ctx, orig):
+            return 'ub'
         ctx.fail(f'{prefix}:output-differs', case, first_diff(orig.out, cand.out))
         return 'fail'
     return 'ok'
